@@ -47,3 +47,23 @@ Definition pool_run (sel : list checker) (f : sys_file) (k : nat) : list string 
   | Some c => map (fun w => fmt_line (fst w) (cname c) (snd w)) (warnings_of f c)
   | None => []
   end.
+
+(* ---- the go/analysis front-ends (checkers/analyzer + singlechecker), composed the same way ----
+   selection by filterCheckersList (Model_Select.an_selected); no test-file or generated-file filter;
+   every warning of a selected checker becomes the diagnostic "checker: text" printed as
+   "location: checker: text"; the driver exits 3 when anything was reported, 1 on the init error. *)
+Definition an_nonempty (l : list string) : bool := match l with [] => false | _ => true end.
+
+Inductive an_outcome :=
+| AnError
+| AnExit (code : Z) (lines : list string).
+
+Definition an_lines (reg : list checker) (af : an_flags) (files : list sys_file) : list string :=
+  flat_map (fun f =>
+    flat_map (fun c => map (fun w => fmt_line (fst w) (cname c) (snd w)) (warnings_of f c)) (an_filter af reg)) files.
+
+Definition analysis_run (reg : list checker) (af : an_flags) (files : list sys_file) : an_outcome :=
+  match an_filter af reg with
+  | [] => AnError
+  | _ => let l := an_lines reg af files in AnExit (if an_nonempty l then 3%Z else 0%Z) l
+  end.
